@@ -30,9 +30,10 @@ def rand_mscore(rng):
     chords = []
     for _ in range(rng.randrange(1, 5)):
         parts = []
+        long_ = rng.random() < 0.2          # a chord of several bars (beats 8, 12 ... are reached inside it)
         for nm in rng.sample(INSTR, rng.randrange(1, 4)):
-            notes = [{"val": rng.randrange(7), "dur": rng.choice(DURS), "tags": rand_tags(rng), "kind": rng.choice("ssssrl")}
-                     for _ in range(rng.randrange(1, 5))]
+            notes = [{"val": rng.randrange(7), "dur": rng.choice(DURS + [F(3), F(4)] if long_ else DURS), "tags": rand_tags(rng), "kind": rng.choice("ssssrl")}
+                     for _ in range(rng.randrange(1, 9 if long_ else 5))]
             parts.append({"name": nm, "tags": rand_tags(rng), "notes": notes})
         chords.append({"tags": rand_tags(rng), "mode": rng.choice(["M", "m", "dorian"]), "degree": rng.randrange(7),
                        "ext": rng.choice(["", "6", "7"]), "tdeg": rng.randrange(12), "parts": parts})
@@ -89,7 +90,7 @@ def rand_atom(rng, lv):
     elif lv == "Melody":
         k = rng.choice(["has", "hasal", "instr", "instr"])
     elif lv == "Chord":
-        k = rng.choice(["has", "hasal", "cbeat_in", "cbeat_between", "cdur_in", "mode_in", "degree_in", "ext_in", "tdeg_in"])
+        k = rng.choice(["has", "hasal", "cbeat_in", "cbeat_between", "cdur_in", "mode_in", "degree_in", "ext_in", "tdeg_in", "cbeat_playing"])
     else:
         k = rng.choice(["has", "hasal"])
     a = {"atom": k}
@@ -97,8 +98,9 @@ def rand_atom(rng, lv):
         a["tags"] = sorted(rng.sample(TAGS, rng.choice([1, 1, 2])))
     elif k == "instr":
         a["names"] = sorted(rng.sample(INSTR, rng.choice([1, 2])))
-    elif k in ("beat_in", "cbeat_in", "beat_playing"):
-        a["l"] = sorted(rng.sample([F(0), F(1, 2), F(1), F(3, 2), F(2), F(3), F(4)], 2))
+    elif k in ("beat_in", "cbeat_in", "beat_playing", "cbeat_playing"):
+        # the beat list as a user writes it: 2..4 beats in any order, later bars included (4, 8, 12: bar lines)
+        a["l"] = rng.sample([F(0), F(1, 2), F(1), F(3, 2), F(2), F(3), F(4), F(5), F(7), F(8), F(12), F(13)], rng.choice([2, 2, 3, 4]))
     elif k in ("beat_between", "cbeat_between", "dur_between"):
         lo = rng.choice([F(0), F(1, 2), F(1)])
         a["a"], a["b"] = lo, lo + rng.choice([F(1, 2), F(1), F(2), F(4)])
@@ -173,6 +175,7 @@ def mk_mask(m):
         if k == "dur_in": return mm.DurationInMask([F(x) for x in m["l"]])
         if k == "dur_between": return mm.DurationBetweenMask(F(m["a"]), F(m["b"]))
         if k == "beat_playing": return mm.BeatPlayingInMask([F(x) for x in m["l"]])
+        if k == "cbeat_playing": return mm.ChordBeatPlayingInMask([F(x) for x in m["l"]])
         if k == "cbeat_in": return mm.ChordBeatInMask([F(x) for x in m["l"]])
         if k == "cbeat_between": return mm.ChordBeatBetweenMask(F(m["a"]), F(m["b"]))
         if k == "cdur_in": return mm.ChordDurationInMask([F(x) for x in m["l"]])
@@ -219,7 +222,7 @@ def coq_mask(m, tpq):
                 "instr": lambda: f"AInstr {coq_strs(m['names'])}", "beat_in": lambda: f"ABeatIn {zs(m['l'])}",
                 "beat_between": lambda: f"ABeatBetween {tk(m['a'])} {tk(m['b'])}", "dur_in": lambda: f"ADurIn {zs(m['l'])}",
                 "dur_between": lambda: f"ADurBetween {tk(m['a'])} {tk(m['b'])}", "beat_playing": lambda: f"ABeatPlayingIn {zs(m['l'])}",
-                "cbeat_in": lambda: f"AChordBeatIn {zs(m['l'])}", "cbeat_between": lambda: f"AChordBeatBetween {tk(m['a'])} {tk(m['b'])}",
+                "cbeat_playing": lambda: f"AChordBeatPlayingIn {zs(m['l'])}", "cbeat_in": lambda: f"AChordBeatIn {zs(m['l'])}", "cbeat_between": lambda: f"AChordBeatBetween {tk(m['a'])} {tk(m['b'])}",
                 "cdur_in": lambda: f"AChordDurIn {zs(m['l'])}", "mode_in": lambda: "AModeIn " + L([MODE_C[x] for x in m["l"]]),
                 "degree_in": lambda: "ADegreeIn " + core.Zl(list(m["l"])), "ext_in": lambda: f"AExtIn {coq_strs(m['l'])}",
                 "tdeg_in": lambda: "ATonDegIn " + core.Zl(list(m["l"]))}[k]()
@@ -246,6 +249,7 @@ def eval_atom(a, env, lv):
     if k == "dur_in": return o["dur"] in [F(x) for x in a["l"]]
     if k == "dur_between": return F(a["a"]) <= o["dur"] < F(a["b"])
     if k == "beat_playing": return any(o["beat"] <= F(b) < o["beat"] + o["dur"] for b in a["l"])
+    if k == "cbeat_playing": return any(o["cbeat"] <= F(b) < o["cbeat"] + o["cdur"] for b in a["l"])
     if k == "cbeat_in": return o["cbeat"] in [F(x) for x in a["l"]]
     if k == "cbeat_between": return F(a["a"]) <= o["cbeat"] < F(a["b"])
     if k == "cdur_in": return o["cdur"] in [F(x) for x in a["l"]]
